@@ -130,6 +130,7 @@ def gotOf : P → List Val
 def sentOf : P → List Val
   | .bsend _ _ _ sent _ _ => sent
   | .bsendEnd _ _ sent _ => sent
+  | .stg _ _ _ sent _ => sent
   | .fin o => o.sent
   | _ => []
 
